@@ -205,10 +205,25 @@ pub fn cases(tier: Tier) -> Vec<Case> {
         ("streams-beyond-max-concurrent", (0..130u32).flat_map(|i| headers_frame(abuse_stream + 2 * i, &req_block("/size/5", &[]), true)).collect(), Expect::GoawayOrTolerated(vec![ENHANCE_YOUR_CALM, PROTOCOL_ERROR, REFUSED_STREAM]), false),
     ];
     let _ = NO_ERROR;
-    for state in ["fresh", "open-stream"] {
+    for state in ["fresh", "open-stream", "half-closed"] {
         for (name, abuse, expect, mnf) in &t {
-            out.push(Case { name: (*name).to_owned(), state: state.to_owned(), abuse: abuse.clone(), expect: expect.clone(), must_not_forward: *mnf });
+            let mut expect = expect.clone();
+            if state == "half-closed" && *name == "push-promise-from-client" {
+                // the frame names stream 1, which is half-closed (remote) here: RFC 9113 section 5.1 prescribes
+                // STREAM_CLOSED for any frame but WINDOW_UPDATE / PRIORITY / RST_STREAM on it, section 8.4 PROTOCOL_ERROR
+                expect = Expect::Goaway(vec![PROTOCOL_ERROR, STREAM_CLOSED]);
+            }
+            out.push(Case { name: (*name).to_owned(), state: state.to_owned(), abuse: abuse.clone(), expect, must_not_forward: *mnf });
         }
+    }
+    // what a client may still send on a stream it has finished (half-closed remote, RFC 9113 section 5.1)
+    // while the answer is in flight: it must change nothing
+    for (name, abuse) in [
+        ("priority-on-half-closed-stream", h2::frame(h2::PRIORITY, 0, 1, &[0, 0, 0, 0, 16])),
+        ("window-update-on-half-closed-stream", h2::window_update(1, 1000)),
+        ("unknown-frame-on-half-closed-stream", h2::frame(0x42, 0, 1, b"whatever")),
+    ] {
+        out.push(Case { name: name.to_owned(), state: "half-closed".to_owned(), abuse, expect: Expect::Tolerated, must_not_forward: false });
     }
     out
 }
@@ -273,6 +288,11 @@ pub fn run_case_tagged(tag: &str, case: &Case, prefix: Vec<u32>, profile: Choice
         script.push(Step::H2Data { stream: 1, bytes: b"12345".to_vec(), end_stream: false, frame_size: 16384, ignore_window: false });
         script.push(Step::Wait { ms: 5 });
     }
+    if case.state == "half-closed" {
+        // stream 1 is finished on the client's side, its answer comes 200 ms later
+        script.push(Step::H2Headers { stream: 1, headers: get("/slow/200"), end_stream: true, continuation_at: None });
+        script.push(Step::Wait { ms: 5 });
+    }
     if case.name.starts_with("cancel-mid-body") {
         script.push(Step::H2Headers { stream: 5, headers: get("/size/400000"), end_stream: true, continuation_at: None });
         script.push(Step::H2Await(H2Cond::BodyAtLeast(5, 20000)));
@@ -285,6 +305,9 @@ pub fn run_case_tagged(tag: &str, case: &Case, prefix: Vec<u32>, profile: Choice
     if case.state == "open-stream" {
         // the stream that was open before the abuse can still be finished
         script.push(Step::H2Data { stream: 1, bytes: b"67890".to_vec(), end_stream: true, frame_size: 16384, ignore_window: false });
+        script.push(Step::H2Await(H2Cond::StreamDone(1)));
+    }
+    if case.state == "half-closed" {
         script.push(Step::H2Await(H2Cond::StreamDone(1)));
     }
     script.push(Step::Wait { ms: 300 });
@@ -381,7 +404,7 @@ pub fn run_case_tagged(tag: &str, case: &Case, prefix: Vec<u32>, profile: Choice
                 } else if !follow_ok {
                     flag("connection-unusable-afterwards".into(), format!("a request sent after the input was not answered: {follow_up:?} (connection over: {over})"));
                 }
-                if case.state == "open-stream" && ep.goaway.is_none() && !matches!(kept, Some((Some(200), true, None))) {
+                if case.state != "fresh" && ep.goaway.is_none() && !matches!(kept, Some((Some(200), true, None))) {
                     flag("open-stream-lost".into(), format!("the stream that was open when the input arrived did not complete afterwards: {kept:?}"));
                 }
             };
